@@ -50,6 +50,13 @@ MUTANTS = {
     "c12-bound-le": ("pulsarbat/transforms/transforms.py", "if (t < 0) or (len(z) < t + n):", "if (t < 0) or (len(z) <= t + n):", ["C12"]),
     "c12-round": ("pulsarbat/transforms/transforms.py", "if (i := int(t)) < t:", "if (i := round(t)) < t:", ["C12"]),
     "c12-neg-n": ("pulsarbat/transforms/transforms.py", "    if (n := operator.index(n)) < 0:\n        raise ValueError(\"n must be a non-negative integer.\")\n", "    n = operator.index(n)\n", ["C12"]),
+    "c06-floor": ("pulsarbat/transforms/dedispersion.py", "delays = delays.round().astype(np.int64)", "delays = np.floor(delays).astype(np.int64)", ["C06"]),
+    "c06-crop-first": ("pulsarbat/transforms/dedispersion.py", "crop_before = -min(0, delays[0], delays[-1])", "crop_before = -min(0, delays[0])", ["C06"]),
+    "c06-swap-f-ref": ("pulsarbat/transforms/dedispersion.py", "delay = coeff * (1 / f ** 2 - 1 / ref_freq ** 2)", "delay = coeff * (1 / ref_freq ** 2 - 1 / f ** 2)", ["C06"]),
+    "c06-f-inv1": ("pulsarbat/transforms/dedispersion.py", "delay = coeff * (1 / f ** 2 - 1 / ref_freq ** 2)", "delay = coeff * (1 / f - 1 / ref_freq) / (1 * u.GHz)", ["C06"]),
+    "c06-const": ("pulsarbat/transforms/dedispersion.py", "/ u.pc / 2.41e-4", "/ u.pc / 2.410331e-4", ["C06"]),
+    "c06-no-newstart": ("pulsarbat/transforms/dedispersion.py", "        new_start += crop_before * z.dt\n", "        pass\n", ["C06"]),
+    "c06-halfup": ("pulsarbat/transforms/dedispersion.py", "delays = delays.round().astype(np.int64)", "delays = np.floor(delays + 0.5).astype(np.int64)", ["C06"]),
 }
 
 # behaviour-preserving edits: no check may fire
